@@ -92,6 +92,25 @@ func (d *recDefSB) LexBytes(f string, b []byte) (lexer.Lexer, error) {
 	return d.rec.wrap(lx, "LexBytes"), nil
 }
 
+// fullDef is a user-written Definition implementing the optional
+// StringDefinition and BytesDefinition interfaces on top of any definition.
+type fullDef struct{ inner lexer.Definition }
+
+func (d *fullDef) Symbols() map[string]lexer.TokenType            { return d.inner.Symbols() }
+func (d *fullDef) Lex(f string, r io.Reader) (lexer.Lexer, error) { return d.inner.Lex(f, r) }
+func (d *fullDef) LexString(f, s string) (lexer.Lexer, error) {
+	if sd, ok := d.inner.(lexer.StringDefinition); ok {
+		return sd.LexString(f, s)
+	}
+	return d.inner.Lex(f, strings.NewReader(s))
+}
+func (d *fullDef) LexBytes(f string, b []byte) (lexer.Lexer, error) {
+	if bd, ok := d.inner.(lexer.BytesDefinition); ok {
+		return bd.LexBytes(f, b)
+	}
+	return d.inner.Lex(f, bytes.NewReader(b))
+}
+
 func wrapDef(inner lexer.Definition, rec *recorder) lexer.Definition {
 	_, s := inner.(lexer.StringDefinition)
 	_, b := inner.(lexer.BytesDefinition)
@@ -231,6 +250,11 @@ func c15Child(c *mon.Child) {
 		mapped := gi%5 == 4
 		rec := &recorder{}
 		raw := gram.ProfileDef(g.Profile)
+		if gi%2 == 1 {
+			// a user definition that offers all three entry points itself
+			raw = &fullDef{raw}
+			c.Feature("grammars_over_a_definition_with_LexString_and_LexBytes")
+		}
 		opts := []participle.Option{participle.Lexer(wrapDef(raw, rec)), participle.UseLookahead([]int{1, 2, participle.MaxLookahead}[gi%3])}
 		elided := gram.ElidedNames(g.Profile)
 		if len(elided) > 0 {
@@ -332,6 +356,12 @@ func c15Child(c *mon.Child) {
 			if fname != "" {
 				eps = append(eps, ep{"Parse(\"\", named reader)", func() (interface{}, error) {
 					return b.Parse("", namedReader{strings.NewReader(text), fname}, po...)
+				}})
+			}
+			if fname != "" {
+				// an explicit filename wins over the reader's own name
+				eps = append(eps, ep{"Parse(filename, reader with another name)", func() (interface{}, error) {
+					return b.Parse(fname, namedReader{strings.NewReader(text), "other-name.txt"}, po...)
 				}})
 			}
 			var base realResult
@@ -491,7 +521,7 @@ func gpElided(gp *gparsers, t lexer.TokenType) bool {
 func init() {
 	Register(&mon.Spec{
 		ID:          "C15",
-		Rule:        "case = (generated grammar over the default, stateful or lower-case-eliding lexer, optionally behind Upper/Map token mappers; input text incl. arbitrary bytes; filename; AllowTrailing). ParseString, ParseBytes, Parse(reader), ParseFromLexer over Upgrade(Lexer().Lex(...)), ParseString+Trace and Parse(\"\", named reader) must return identical ASTs (all fields, positions, token lists) and identical error texts; a recording Definition wrapper (forwarding Lex/LexString/LexBytes to the wrapped definition's own methods) must see exactly Parser.Lex's tokens during each call; the definition's Lex/LexString/LexBytes (and lexer.LexString/LexBytes) must yield identical streams; after ParseFromLexer(AllowTrailing) the caller's lexer must peek the first unconsumed token (decided by the reference semantics). Non-trivial: >=3 tokens and a multi-line input or elided tokens. Distinct by (grammar IR, text).",
+		Rule:        "case = (generated grammar over the default, stateful or lower-case-eliding lexer, optionally behind Upper/Map token mappers; input text incl. arbitrary bytes; filename; AllowTrailing). ParseString, ParseBytes, Parse(reader), ParseFromLexer over Upgrade(Lexer().Lex(...)), ParseString+Trace and Parse(\"\", named reader) must return identical ASTs (all fields, positions, token lists) and identical error texts; a recording Definition wrapper (forwarding Lex/LexString/LexBytes to the wrapped definition's own methods) must see exactly Parser.Lex's tokens during each call; the definition's Lex/LexString/LexBytes (and lexer.LexString/LexBytes) must yield identical streams; after ParseFromLexer(AllowTrailing) the caller's lexer must peek the first unconsumed token (decided by the reference semantics). Non-trivial: >=3 tokens and a multi-line input or elided tokens. Distinct by (grammar IR, text). Every second grammar runs over a user definition that itself implements LexString and LexBytes; Parse(filename, reader with another Name()) must use the explicit filename.",
 		Assumptions: []string{"with token mappers the recorder sits below the mapper, so the handed-out-tokens comparison is only made for unmapped parsers; AST/error agreement is checked for all", "generated Go lexers as the parser's lexer are exercised in the C05 check"},
 		Batches:     func(t string) int { return pick(t, 4, 16) },
 		Floor:       func(t string) int { return pick(t, 1500, 20000) },
